@@ -136,7 +136,45 @@ def run(ctx):
                 # head change: extend the head (possibly mining some pool transactions), or switch to another tip
                 before = list(cm.transaction_pool)
                 sub = rng.random()
-                if sub < 0.5:
+                if sub < 0.3 and head == tree.cs.current_chain_hash and head in tree.own:
+                    # the head is extended by a block that arrives as the answer to the node's own request (bulk
+                    # download): it is adopted without full validation, the last fully validated state stays behind
+                    take = [t for t in before if rng.random() < 0.6 and valid_at(cm.coinstate, t)]
+                    if not take:
+                        t_ = tree.random_tx(head)
+                        take = [t_] if t_ is not None and not ({i.output_reference for i in t_.inputs} & in_pool) else []
+                    blk = tree.extend(head, txs=take)
+                    mined_txs += take
+                    kind = "extend_by_reply"
+                    node.CLOCK[0] = blk.timestamp + 5
+                    rr = rn.deliver_block(1, blk, 41)
+                    ops.extend(keys.oracle_lines(sig_mark))
+                    impl.extend(["ok"] * (len(keys.oracle) - sig_mark))
+                    sig_mark = len(keys.oracle)
+                    ops.append("addnv t t " + hx(blk.serialize()))
+                    impl.append("ok")
+                    ops.append("node block 1 41 %s %d" % (hx(blk.serialize()), node.CLOCK[0]))
+                    impl.append(rr)
+                    after = list(cm.transaction_pool)
+                    want = [t for t in before if valid_at(cm.coinstate, t)]
+                    res.count("head:" + kind)
+                    if cm.coinstate.current_chain_hash != blk.hash():
+                        res.count("reply-block-not-adopted")
+                    if [t.hash() for t in after] != [t.hash() for t in want]:
+                        res.violations.append({"kind": "after a head change the pool is not the old pool filtered by validity at the new head",
+                                               "scenario": si, "step": step, "head_change": kind,
+                                               "pool": [t.hash().hex() for t in after], "expected": [t.hash().hex() for t in want]})
+                    # right away: the transactions the new head has mined, and a spend of one of the outputs it spent
+                    for t_ in take[:2]:
+                        b4 = list(cm.transaction_pool)
+                        r_ = rn.deliver_tx(1, t_)
+                        ops.append("node tx 1 " + hx(t_.serialize()))
+                        impl.append(r_)
+                        if len(cm.transaction_pool) != len(b4):
+                            res.violations.append({"kind": "a transaction already mined in the current head was admitted to the pool",
+                                                   "tx": t_.serialize().hex(), "scenario": si, "step": step})
+                        res.count("submit:mined_in_unvalidated_head")
+                elif sub < 0.5:
                     take = [t for t in before if rng.random() < 0.5 and valid_at(cm.coinstate, t)]
                     blk = tree.extend(head, txs=take)
                     mined_txs += take
@@ -148,7 +186,9 @@ def run(ctx):
                 else:
                     blk = None
                     kind = "switch"
-                if blk is not None:
+                if kind == "extend_by_reply":
+                    pass
+                elif blk is not None:
                     ops.append("addnv t t " + hx(blk.serialize()))
                     impl.append("ok")
                     ops.extend(keys.oracle_lines(sig_mark))
@@ -157,17 +197,18 @@ def run(ctx):
                     new_head = blk.hash() if kind == "extend" else rng.choice(sorted(tree.cs.heads.keys()))
                 else:
                     new_head = rng.choice(sorted(tree.cs.heads.keys()))
-                view = chain.view(tree.cs, new_head)
-                cm.set_coinstate(view)
-                ops.append("sethead v t " + new_head.hex())
-                impl.append("ok")
-                ops.append("node setstate v 1")
-                impl.append("ok")
-                after = list(cm.transaction_pool)
-                want = [t for t in before if valid_at(view, t)]
-                res.count("head:" + kind)
+                if kind != "extend_by_reply":
+                    view = chain.view(tree.cs, new_head)
+                    cm.set_coinstate(view)
+                    ops.append("sethead v t " + new_head.hex())
+                    impl.append("ok")
+                    ops.append("node setstate v 1")
+                    impl.append("ok")
+                    after = list(cm.transaction_pool)
+                    want = [t for t in before if valid_at(view, t)]
+                    res.count("head:" + kind)
                 res.count("evicted", len(before) - len(after))
-                if [t.hash() for t in after] != [t.hash() for t in want]:
+                if kind != "extend_by_reply" and [t.hash() for t in after] != [t.hash() for t in want]:
                     res.violations.append({"kind": "after a head change the pool is not the old pool filtered by validity at the new head",
                                            "scenario": si, "step": step, "head_change": kind,
                                            "pool": [t.hash().hex() for t in after], "expected": [t.hash().hex() for t in want]})
